@@ -54,6 +54,9 @@ def faults(m, meta):
                 problems.append({"scenario": label, "finalize_calls": n})
         if r.used_after_fin:
             problems.append({"scenario": label, "render_with_finalized_data": r.used_after_fin})
+        if not r.keep:
+            for rid in r.created:          # these objects may be gone by now and their ids handed out again
+                Foo.FIN.pop(rid, None)
     for op in ("render", "str", "format"):
         for fa in (None, 1):
             for exc in (Boom, KeyboardInterrupt, StopIteration):
@@ -105,6 +108,21 @@ def faults(m, meta):
         finally:
             sys.stdout = old
         check(r, (op, "incompatible-render-args"))
+    # a closed iterator rejects every operation - also one that would change nothing (the padding / size / arguments already in effect)
+    from term_image.padding import ExactPadding as _XP
+    P0 = _XP(1, 0, 1, 0)
+    r = Foo(3); it = RenderIterator(r, padding=P0); next(it); it.close()
+    for what, call in (("set_padding(the padding in effect)", lambda: it.set_padding(P0)), ("set_padding(the stored object)", lambda: it.set_padding(it._padding)),
+                       ("set_render_size(the size in effect)", lambda: it.set_render_size(Size(2, 2))),
+                       ("set_render_args(the arguments in effect)", lambda: it.set_render_args(it._render_args)), ("seek(0)", lambda: it.seek(0))):
+        try:
+            call()
+            problems.append({"scenario": f"closed iterator accepted {what}"})
+        except FinalizedIteratorError:
+            pass
+        except Exception as e:  # noqa: BLE001
+            problems.append({"scenario": f"closed iterator: {what} raised {type(e).__name__} instead of FinalizedIteratorError"})
+    check(r, "closed-iterator-operations")
     r = Foo(3); it = RenderIterator(r); it.close(); it.close(); check(r, "close-twice-before-first-frame")
     r = Foo(3); it = RenderIterator(r); list(it); check(r, "exhaust")
     r = Foo(3, fail_at=2); it = RenderIterator(r)
